@@ -33,6 +33,24 @@ empty list, other insertions).  Oracle (slices and strands, by NAME from the gen
 record of what it flagged): a subtotal of the list in force is shown iff it is not flagged
 "hide": true (and the opposing dimension does not prune everything away); the model is fed the
 flag of every insertion of both lists (`i_hide` of Model/Collator.v).
+
+Leg (c), ONE transforms dict object for a sequence of cubes (motivated by the seeded change
+C09-5: `_ElementIdShim._replaced_element_transforms` re-keyed the caller's `elements` dict in
+place, so that the hide flags written by element id / subvariable id were keyed by the FIRST
+cube's aliases when the second cube met them, and the explicitly hidden item was displayed;
+every single cube of legs (a)/(b) gets its own deep copy and cannot see that).  "Explicitly
+hidden" refers to what the caller wrote, so the property must hold for cube k of a deck exactly
+as for cube k alone.  Class added: 2..3 cubes built one after another (or all built first and
+read in / against the order of construction; the first cube once more after another one) over
+DIFFERENT array variables - MR strands, MR x CAT, CAT x MR, CA, MR x MR, numeric arrays (x CAT),
+and the 3-D cubes CAT x MR x CAT, CAT x CAT x MR, CAT x CA whose slices each re-apply the dict -
+with the same dict OBJECT (rows and / or columns, also one object for both), hide flags keyed by
+element id, subvariable id ("000k" or tokens shared by the variables of the deck), alias or
+category id, with and without prune, explicit / label orders.  Required of every cube and slice:
+(rel) the same orders, labels, codes, shape, is_empty as a fresh cube given its own copy of the
+transforms as written, and (abs) shown <=> not named by a "hide": true entry and not (prune and
+empty by unweighted respondent counts), labels / shape / is_empty to match (keys whose reading
+needs the id cascade of C19 are checked by (rel) only).  Distribution keys `shared-transforms:*`.
 """
 import copy
 import json
@@ -637,6 +655,433 @@ def run_cases(rep, cases):
     return coq_s, len(terms)
 
 
+# ------------------------------------------------------------------------------------
+# leg (c): ONE transforms dict object used with a sequence of cubes
+# ------------------------------------------------------------------------------------
+#
+# "Explicitly hidden" is a statement about what the CALLER wrote in the transforms.  A client
+# applies one transforms dict ("hide item 2, prune") to every cube of a deck, so the property
+# must hold for cube k of such a sequence exactly as it holds for cube k alone: the visibility
+# of cube k is a function of its data and of the transforms AS WRITTEN, not of the cubes the
+# same dict object met before.  The leg builds 2..3 cubes one after another over DIFFERENT
+# array variables (other subvariable aliases, other numbers of items, the array on the rows
+# or on the columns, 3-D cubes whose slices each re-apply the dict) with the same dict OBJECT
+# and requires of every cube (every slice)
+#   (rel)  the same orders / labels / codes / shape / is_empty as a fresh cube on the same
+#          response given its OWN deep copy of the transforms as written;
+#   (abs)  shown <=> not named by a "hide": true entry and not (prune and empty by unweighted
+#          respondent counts), the named element being decided by the generator's own record
+#          (a key names the base element whose element id, subvariable id or alias - category
+#          id on a categorical dimension - it spells; keys whose reading depends on the id
+#          cascade of C19 are left to (rel) alone).
+
+SEQ_LEG = "shared-transforms"
+SEQ_TOKENS = ["sv-a", "sv-b", "sv-c", "sv-d", "sv-e", "sv-f", "sv-g"]
+SEQ_LAYOUTS = [("arr", 2), ("arr_x_cat", 4), ("cat_x_arr", 4), ("ca", 3), ("mr_x_mr", 2),
+               ("cat_x_arr_x_cat", 2), ("cat_x_cat_x_arr", 2), ("cat_x_ca", 2),
+               ("numarr", 1), ("numarr_x_cat", 2)]
+AMBIG = "ambiguous"
+
+
+class _SubSurvey(object):
+    """the respondents of one table category (one slice of a 3-D cube)"""
+
+    def __init__(self, survey, resp):
+        self.vars, self.resp, self.weighted = survey.vars, resp, survey.weighted
+
+    def var(self, alias):
+        for v in self.vars:
+            if v.alias == alias:
+                return v
+        raise KeyError(alias)
+
+
+def seq_subvar_ids(rng, mode, eids):
+    if mode == "numeric":
+        return ["%04d" % e for e in eids]
+    return rng.sample(SEQ_TOKENS, len(eids))
+
+
+def seq_array_var(rng, alias, kind, n, mode):
+    """MR / CA variable with element ids 1..n (what zz9 delivers), its own aliases and
+    subvariable ids either "000k" (k = element id) or tokens drawn from a pool that all
+    variables of the sequence share (so that one subvariable id names items at different
+    positions of different variables)"""
+    eids = list(range(1, n + 1))
+    svids = seq_subvar_ids(rng, mode, eids)
+    items = [{"id": eids[k], "subvar_id": svids[k], "alias": "%s_i%d" % (alias, k),
+              "name": "%s item %d" % (alias, k), "missing": False} for k in range(n)]
+    if kind == "mr":
+        return gen.Var(kind="mr", alias=alias, name=alias.upper(), items=items)
+    cat = gen.make_cat(rng, alias, n_valid=rng.randint(1, 3), n_missing=rng.choice([0, 0, 1]))
+    return gen.Var(kind="ca", alias=alias, name=alias.upper(), items=items, cats=cat.cats)
+
+
+def array_axis(v):
+    return {"kind": "array", "n": len(v.items), "names": [it["name"] for it in v.items],
+            "eids": [it["id"] for it in v.items], "svids": [it["subvar_id"] for it in v.items],
+            "aliases": [it["alias"] for it in v.items]}
+
+
+def cat_axis(v):
+    valid = [c for c in v.cats if not c["missing"]]
+    return {"kind": "cat", "n": len(valid), "names": [c["name"] for c in valid],
+            "ids": [c["id"] for c in valid]}
+
+
+def seq_numarr_cube(rng, j, n, mode, by_cat):
+    """NUM_ARRAY (x CAT) response: means + valid counts, every count positive, so that no
+    vector is empty under any reading of the pruning rule (nothing may be pruned)."""
+    alias = "q%d" % j
+    eids = list(range(n))                          # the library numbers the items 0..n-1
+    svids = seq_subvar_ids(rng, mode, eids)
+    aliases = ["%s_s%d" % (alias, k) for k in range(n)]
+    names = ["%s sub %d" % (alias, k) for k in range(n)]
+    cat = gen.make_cat(rng, "g%d" % j, n_valid=rng.randint(1, 3), n_missing=0)
+    ncat = len(cat.cats) if by_cat else 1
+    md = {"derived": True,
+          "references": {"alias": alias, "name": alias.upper(),
+                         "subreferences": [{"alias": a, "name": nm} for a, nm in zip(aliases, names)]},
+          "type": {"class": "numeric", "integer": False, "subvariables": svids}}
+    size = ncat * n
+    means = [gen.fnum(Fraction(rng.randint(0, 400), 4)) for _ in range(size)]
+    valid = [rng.randint(1, 9) for _ in range(size)]
+    counts = [rng.randint(1, 9) for _ in range(ncat)]
+    result = {"counts": counts, "dimensions": gen.dimension_dicts(cat) if by_cat else [],
+              "element": "crunch:cube", "n": sum(counts), "missing": 0,
+              "measures": {"mean": {"data": means, "metadata": copy.deepcopy(md), "n_missing": 0},
+                           "valid_count_unweighted": {"data": valid, "metadata": copy.deepcopy(md),
+                                                      "n_missing": 0}}}
+    arr = {"kind": "array", "n": n, "names": names, "eids": eids, "svids": svids, "aliases": aliases}
+    axes = [arr] + ([cat_axis(cat)] if by_cat else [])
+    empties = [[] for _ in axes]
+    return {"layout": "numarr_x_cat" if by_cat else "numarr", "response": {"query": {}, "result": result},
+            "strand": not by_cat, "axes": axes, "slices": [{"empties": empties}], "array_kinds": ["numarr"]}
+
+
+def seq_cube(rng, j, layout, mode):
+    """one cube of the sequence: response, the base elements of its row / column axes and, per
+    slice, the empty vectors by unweighted respondent counts"""
+    n = rng.randint(2, 5)
+    if layout.startswith("numarr"):
+        return seq_numarr_cube(rng, j, n, mode, layout == "numarr_x_cat")
+    akind = "ca" if layout in ("ca", "cat_x_ca") else "mr"
+    m = seq_array_var(rng, "m%d" % j, akind, n, mode)
+    c = gen.make_cat(rng, "c%d" % j, n_valid=rng.randint(1, 4))
+    t = gen.make_cat(rng, "t%d" % j, n_valid=rng.randint(1, 3))
+    m2 = seq_array_var(rng, "n%d" % j, "mr", rng.randint(2, 4), mode)
+    variables, table = {
+        "arr": ([m], None), "arr_x_cat": ([m, c], None), "cat_x_arr": ([c, m], None),
+        "ca": ([m], None), "mr_x_mr": ([m, m2], None), "cat_x_arr_x_cat": ([m, c], t),
+        "cat_x_cat_x_arr": ([c, m], t), "cat_x_ca": ([m], t)}[layout]
+    allv = ([table] if table is not None else []) + variables
+    sv = gen.Survey(allv, rng.choice([3, 8, 15, 30]), rng, weighted=rng.random() < 0.6)
+    shape_survey(rng, sv, variables)
+    aliases = [v.alias for v in variables]
+    resp = gen.cube_response(sv, [v.alias for v in allv], measures=("count",))
+    strand = layout == "arr"
+    if akind == "ca":
+        axes = [array_axis(m), cat_axis(m)]
+    else:
+        axes = [array_axis(v) if v.kind == "mr" else cat_axis(v) for v in variables]
+    mrxmr = layout == "mr_x_mr"
+    if table is None:
+        groups = [sv.resp]
+    else:
+        groups = [[r for r in sv.resp if r["ans"][table.alias] == p] for p in valid_positions(table)]
+    slices = [{"empties": py_empties(unweighted_tensor(_SubSurvey(sv, g), aliases), strand, mrxmr)}
+              for g in groups]
+    return {"layout": layout, "response": resp, "strand": strand, "axes": axes, "slices": slices,
+            "mrxmr": mrxmr, "array_kinds": [v.kind for v in variables if v.kind in ("mr", "ca")]}
+
+
+def seq_key_pool(cubes, idx):
+    """[(how, key)] the spellings by which the caller may name a base element of the axis that
+    transforms key #idx (rows / columns) faces in the cubes of the sequence.  Element id 0 (first
+    item of a numeric array) is left out: on an array numbered from 1 the library reads "0" as a
+    position, which the property text does not decide."""
+    pool = []
+    for c in cubes:
+        if idx >= len(c["axes"]):
+            continue
+        ax = c["axes"][idx]
+        if ax["kind"] == "cat":
+            pool += [("catid", str(i)) for i in ax["ids"]]
+        else:
+            pool += [("eid", str(e)) for e in ax["eids"] if e != 0]
+            pool += [("svid", s) for s in ax["svids"]]
+            pool += [("alias", a) for a in ax["aliases"]]
+    return pool
+
+
+def seq_dim_transforms(rng, cubes, idx, stats):
+    """what the caller writes for the rows (idx 0) / columns (idx 1) of the whole deck; written
+    with the first cubes in mind (keys by element id / subvariable id of THEIR array items)"""
+    pool = seq_key_pool(cubes, idx)
+    first = seq_key_pool(cubes[:1], idx)
+    arrayish = [p for p in first if p[0] in ("eid", "svid")] or [p for p in pool if p[0] in ("eid", "svid")]
+    t = {}
+    els = {}
+    for _ in range(rng.choice([1, 1, 2, 2, 3])):
+        r = rng.random()
+        src = arrayish if (r < 0.7 and arrayish) else pool
+        if not src:
+            break
+        how, key = rng.choice(src)
+        if key in els:
+            continue
+        h = rng.random()
+        els[key] = {"hide": True} if h < 0.85 else {"hide": rng.choice([False, None])} if h < 0.95 else {}
+        stats.append("key:" + how)
+    if els and rng.random() < 0.92:
+        t["elements"] = els
+    pr = rng.random()
+    if pr < 0.5:
+        t["prune"] = True
+    elif pr < 0.65:
+        t["prune"] = rng.choice([False, "true", 1, None])
+    r = rng.random()
+    if r < 0.25 and pool:
+        ids = [int(k) if (how in ("eid", "catid") and rng.random() < 0.5) else k
+               for how, k in rng.sample(pool, rng.randint(1, min(4, len(pool))))]
+        t["order"] = {"type": "explicit", "element_ids": ids}
+        stats.append("order:explicit")
+    elif r < 0.35:
+        t["order"] = {"type": "label", "direction": rng.choice(["ascending", "descending"])}
+        stats.append("order:label")
+    return t
+
+
+def gen_seq_case(rng, k):
+    mode = rng.choice(["numeric", "token", "token"])
+    n_cubes = rng.choice([2, 2, 2, 3])
+    names, weights = zip(*SEQ_LAYOUTS)
+    cubes = []
+    for j in range(n_cubes):
+        if j == 2 and rng.random() < 0.3:
+            cubes.append(copy.deepcopy(cubes[0]))           # A, B, A again
+            cubes[-1]["repeat_of"] = 0
+            continue
+        cubes.append(seq_cube(rng, j, rng.choices(names, weights)[0], mode))
+    stats = []
+    transforms = {}
+    which = rng.random()
+    dims = [0, 1] if which < 0.55 else [0] if which < 0.85 else [1]
+    for idx in dims:
+        transforms[["rows_dimension", "columns_dimension"][idx]] = seq_dim_transforms(rng, cubes, idx, stats)
+    same_object = dims == [0] and rng.random() < 0.25
+    read = rng.choices(["interleaved", "build-all-then-read", "build-all-then-read-reversed"], [7, 2, 1])[0]
+    return {"leg": SEQ_LEG, "k": k, "cubes": cubes, "transforms": transforms, "same_object": same_object,
+            "read": read, "svid_mode": mode, "stats": stats}
+
+
+def seq_written(case):
+    """a fresh copy of the transforms as the caller wrote them"""
+    t = copy.deepcopy(case["transforms"])
+    if case["same_object"]:
+        t["columns_dimension"] = copy.deepcopy(t["rows_dimension"])
+    return t
+
+
+def seq_read(cube, spec):
+    """visibility outputs of every partition of the cube (None: the cube could not be built)"""
+    if cube is None or cube[0] != "ok":
+        return [{"cube": ("exc", cube[1]) if cube is not None else ("exc", "?")}]
+    r = impl.guarded(lambda: list(cube[1].partitions))
+    if r[0] != "ok":
+        return [{"partitions": ("exc", r[1])}]
+    return [core.jsonable(ou.observe(part, spec["strand"])) for part in r[1]]
+
+
+def seq_run(case, shared):
+    """observations [cube][slice] -> dict; `shared`: ONE transforms object for all cubes, read
+    in the order of the case; else every cube gets its own pristine copy"""
+    mk = lambda spec, t: impl.guarded(  # noqa: E731
+        lambda: impl.Cube(copy.deepcopy(spec["response"]), transforms=t))
+    if not shared:
+        return [seq_read(mk(spec, seq_written(case)), spec) for spec in case["cubes"]]
+    t = copy.deepcopy(case["transforms"])
+    if case["same_object"]:
+        t["columns_dimension"] = t["rows_dimension"]        # the same dict object for both axes
+    if case["read"] == "interleaved":
+        return [seq_read(mk(spec, t), spec) for spec in case["cubes"]]
+    built = [mk(spec, t) for spec in case["cubes"]]
+    idxs = list(range(len(built)))
+    if case["read"].endswith("reversed"):
+        idxs.reverse()
+    out = [None] * len(built)
+    for i in idxs:
+        out[i] = seq_read(built[i], case["cubes"][i])
+    return out
+
+
+def seq_resolve(key, ax):
+    """index of the base element of the axis that `key` names, None (names nothing here) or
+    AMBIG (only the id cascade of C19 decides: left to the relational comparison)"""
+    if ax["kind"] == "cat":
+        hits = [i for i, cid in enumerate(ax["ids"]) if str(cid) == key]
+        return hits[0] if hits else None
+    hits = set()
+    for i in range(ax["n"]):
+        if key in (ax["aliases"][i], str(ax["eids"][i]), ax["svids"][i]):
+            hits.add(i)
+    if len(hits) > 1:
+        return AMBIG
+    if hits:
+        return hits.pop()
+    try:
+        z = int(key)
+    except ValueError:
+        return None
+    return AMBIG if (z in ax["eids"] or 0 <= z < ax["n"]) else None
+
+
+def seq_expected(case, spec, idx, empties):
+    """displayed base elements of axis idx by the property, or None when a key is ambiguous /
+    two entries with different flags name the same element"""
+    key = ["rows_dimension", "columns_dimension"][idx]
+    td = seq_written(case).get(key) or {}
+    ax = spec["axes"][idx]
+    flags = {}
+    for k, e in (td.get("elements") or {}).items():
+        i = seq_resolve(k, ax)
+        if i == AMBIG:
+            return None
+        if i is not None:
+            flags.setdefault(i, set()).add(e.get("hide") is True)
+    if any(len(s) > 1 for s in flags.values()):
+        return None
+    hidden = sorted(i for i, s in flags.items() if True in s)
+    prune = td.get("prune") is True
+    want = [i for i in range(ax["n"]) if i not in hidden and not (prune and i in empties[idx])]
+    return {"shown": want, "hidden": hidden, "prune": prune, "empty_unweighted": list(empties[idx])}
+
+
+def seq_check(case, got, ref):
+    out = []
+    stats = {"abs_axes": 0, "rel_only_axes": 0, "hidden_cubes": 0, "pruned_cubes": 0}
+    for ci, spec in enumerate(case["cubes"]):
+        g, f = got[ci], ref[ci]
+        tag = "cube%d(%s)" % (ci, spec["layout"])
+        if len(g) != len(f):
+            out.append((tag + ".partitions", {"shared": g, "fresh": f}))
+            continue
+        any_hidden = any_pruned = False
+        for si, (og, of) in enumerate(zip(g, f)):
+            for field in sorted(set(og) | set(of)):
+                if og.get(field) != of.get(field):
+                    out.append(("%s.slice%d.%s" % (tag, si, field),
+                                {"with_shared_dict": og.get(field), "with_own_fresh_copy": of.get(field),
+                                 "transforms_as_written": case["transforms"], "cube": ci, "slice": si}))
+            if "row_order" not in og or si >= len(spec["slices"]):
+                if si >= len(spec["slices"]):
+                    out.append((tag + ".slices", {"impl_partitions": len(g), "expected": len(spec["slices"])}))
+                continue
+            shape = []
+            for idx, axis in enumerate(["row"] if spec["strand"] else ["row", "column"]):
+                exp = seq_expected(case, spec, idx, spec["slices"][si]["empties"])
+                if exp is None:
+                    stats["rel_only_axes"] += 1
+                    shape = None
+                    continue
+                stats["abs_axes"] += 1
+                any_hidden = any_hidden or bool(exp["hidden"])
+                any_pruned = any_pruned or (exp["prune"] and bool(exp["empty_unweighted"]))
+                o = og[axis + "_order"]
+                if o[0] != "ok":
+                    out.append(("%s.slice%d.%s.visible_iff" % (tag, si, axis), {"impl": o}))
+                    shape = None
+                    continue
+                shown = sorted(z for z in o[1] if z >= 0)
+                if shown != exp["shown"] or len(shown) != len(o[1]):
+                    out.append(("%s.slice%d.%s.visible_iff" % (tag, si, axis),
+                                dict(exp, impl_order=o[1], expected=exp["shown"], cube=ci, slice=si,
+                                     transforms_as_written=case["transforms"])))
+                    shape = None
+                    continue
+                lab = og[axis + "_labels"]
+                want_lab = [spec["axes"][idx]["names"][z] for z in o[1]]
+                if lab[0] != "ok" or list(lab[1]) != want_lab:
+                    out.append(("%s.slice%d.%s.labels" % (tag, si, axis),
+                                {"impl_labels": lab, "labels_of_displayed": want_lab, "order": o[1]}))
+                if shape is not None:
+                    shape.append(len(exp["shown"]))
+            if shape is not None:
+                if og["shape"] != ["ok", shape]:
+                    out.append(("%s.slice%d.shape" % (tag, si), {"impl": og["shape"], "expected": shape}))
+                if og["is_empty"] != ["ok", any(s == 0 for s in shape)]:
+                    out.append(("%s.slice%d.is_empty" % (tag, si), {"impl": og["is_empty"], "shape": shape}))
+        stats["hidden_cubes"] += any_hidden
+        stats["pruned_cubes"] += any_pruned
+    return out, stats
+
+
+def seq_names_in_two_cubes(case):
+    """does an element-id / subvariable-id key with "hide": true name an item of two cubes of
+    the sequence whose array dimensions differ (the class the leg exists for)"""
+    w = seq_written(case)
+    for idx, key in enumerate(["rows_dimension", "columns_dimension"]):
+        for k, e in ((w.get(key) or {}).get("elements") or {}).items():
+            if e.get("hide") is not True:
+                continue
+            seen = set()
+            for spec in case["cubes"]:
+                if idx < len(spec["axes"]) and spec["axes"][idx]["kind"] == "array":
+                    ax = spec["axes"][idx]
+                    i = seq_resolve(k, ax)
+                    if i not in (None, AMBIG) and k != ax["aliases"][i]:
+                        seen.add(ax["aliases"][i])
+            if len(seen) >= 2:
+                return True
+    return False
+
+
+def _seq_replayable(case):
+    return {k: case[k] for k in ("leg", "k", "cubes", "transforms", "same_object", "read", "svid_mode",
+                                 "stats")}
+
+
+def run_seq_cases(rep, cases):
+    for case in cases:
+        case = core.jsonable(case)              # what a replay file gives back
+        got = seq_run(case, shared=True)
+        ref = seq_run(case, shared=False)
+        found, stats = seq_check(case, got, ref)
+        two = seq_names_in_two_cubes(case)
+        rep.count_case(_seq_replayable(case), two or stats["hidden_cubes"] > 0 or stats["pruned_cubes"] > 0)
+        p = SEQ_LEG + ":"
+        rep.dist(p + "sequences")
+        rep.dist(p + "cubes-in-sequence=%d" % len(case["cubes"]))
+        rep.dist(p + "read:" + case["read"])
+        rep.dist(p + "subvariable-ids:" + case["svid_mode"])
+        for spec in case["cubes"]:
+            rep.dist(p + "cube:" + spec["layout"])
+            if len(spec["slices"]) > 1:
+                rep.dist(p + "3-D-cube-with-2+-slices")
+            if "repeat_of" in spec:
+                rep.dist(p + "first-cube-again-after-another")
+        for s in case["stats"]:
+            rep.dist(p + s)
+        for key in ("rows_dimension", "columns_dimension"):
+            if key in case["transforms"]:
+                rep.dist(p + key + (":prune" if case["transforms"][key].get("prune") is True else ":no-prune"))
+        if case["same_object"]:
+            rep.dist(p + "rows-and-columns-are-one-dict-object")
+        if two:
+            rep.dist(p + "id-key-hides-an-item-in-2+-cubes-with-other-aliases")
+        rep.dist(p + "axes:absolute-oracle", stats["abs_axes"])
+        rep.dist(p + "axes:relational-only(ambiguous key / conflicting flags)", stats["rel_only_axes"])
+        rep.dist(p + "cubes-with-explicit-hide", stats["hidden_cubes"])
+        rep.dist(p + "cubes-with-pruned-empty-vector", stats["pruned_cubes"])
+        if len(rep.cov["samples"]) < 4 and two:
+            rep.sample({"leg": SEQ_LEG, "transforms": case["transforms"],
+                        "cubes": [c["layout"] for c in case["cubes"]], "read": case["read"]}, limit=4)
+        for what, detail in found:
+            rep.violation("shared-transforms-visibility", _seq_replayable(case), dict(detail, what=what),
+                          {"what": what.split(".")[-1], "leg": SEQ_LEG,
+                           "kinds": "+".join(c["layout"] for c in case["cubes"])})
+
+
 def run(tier, seed):
     rep = core.Report(PID, tier, seed)
     ob = core.obligations_gate(rep, PID)
@@ -644,6 +1089,9 @@ def run(tier, seed):
     rng = random.Random(seed)
     cases = [gen_case(rng, k) for k in range(n_cases)]
     coq_s, n_terms = run_cases(rep, cases)
+    n_seq = 250 if tier == "quick" else 4000
+    rng_seq = random.Random("%s/%s" % (SEQ_LEG, seed))    # own stream: leg (a)/(b) cases stay as they were
+    run_seq_cases(rep, [gen_seq_case(rng_seq, k) for k in range(n_seq)])
     rep.cov["rule"] = (
         "cases from random.Random(seed): CAT/MR x CAT/MR slices, CA slices, CAT/MR strands of 1..6 "
         "elements; surveys of 0..40 respondents, 70% weighted with dyadic weights incl. 0, with dead "
@@ -661,10 +1109,26 @@ def run(tier, seed):
         "through an element transform (alias / id key) or through a copy of their insertion carrying "
         "hide: true in transforms.insertions (next to copies with hide: false / without flag / of no "
         "item), pruned when nobody answered them (see the derived:* distribution keys). non-trivial = "
-        "prune with an empty vector or an explicit hide; distinct by content hash")
+        "prune with an empty vector or an explicit hide; distinct by content hash.  Leg (c) "
+        "(shared-transforms:* keys, own random stream): N_SEQ sequences of 2 (75%) or 3 cubes over different "
+        "array variables of 2..5 items (layouts weighted arr 2, arr_x_cat 4, cat_x_arr 4, ca 3, mr_x_mr 2, "
+        "cat_x_arr_x_cat 2, cat_x_cat_x_arr 2, cat_x_ca 2, numarr 1, numarr_x_cat 2; third cube = the first "
+        "again 30%), surveys of 3..30 respondents shaped like above, ONE transforms dict object for the "
+        "whole sequence (rows+columns 55%, rows 30%, columns 15%; one object for both axes 25% of rows-only), "
+        "1..3 element entries keyed 70% by element id / subvariable id of the first cube's array, else any "
+        "spelling of any cube (alias, category id), hide: true 85% / false, None 10% / no flag 5%, prune 50%, "
+        "explicit order 25%, label sort 10%; read interleaved 70%, all cubes built first 20%, read in "
+        "reverse 10%; every sequence is run a second time with a pristine deep copy per cube (reference); "
+        "non-trivial = an id key hides an item in two cubes with other aliases, or a cube hides / prunes"
+    ).replace("N_SEQ", str(n_seq))
     rep.cov["coq_eval_seconds"] = round(coq_s, 2)
     rep.cov["model_terms_evaluated"] = n_terms
     rep.assumptions = [
+        "leg (c): a transforms key names the base element whose element id (as decimal string), subvariable id "
+        "or alias it spells (category id on a categorical dimension); keys that spell no name of the dimension "
+        "but parse to a number the id cascade could still read (a position, \"000k\" against element id k) "
+        "and elements named by entries with different flags are checked against the fresh-copy reference only; "
+        "numeric-array cubes have positive counts everywhere (nothing is empty, nothing may be pruned)",
         "unweighted counts are natural numbers (counts of respondents); valid-count measures not generated",
         "for array dimensions the shimmed ids / hidden set are taken from the implementation for the MODEL "
         "run (C19 owns the id translation); the ORACLE uses the generator's own record of what it hid",
@@ -706,7 +1170,10 @@ def replay(path):
     case = d["violation"]["case"]
     rep = core.Report(PID, "quick", d.get("seed", 0))
     rep.findings = []
-    run_cases(rep, [case])
+    if case.get("leg") == SEQ_LEG:
+        run_seq_cases(rep, [case])
+    else:
+        run_cases(rep, [case])
     for v in rep.violations:
         print("REPLAY still fails:", json.dumps(core.jsonable(v["detail"]))[:700])
     if not rep.violations:
